@@ -24,6 +24,65 @@ use std::sync::{Arc, Mutex};
 use std::time::{Duration, Instant};
 
 const WATCHDOG: Duration = Duration::from_secs(10);
+
+// ------------------------------------------------------------------------------------------
+// (o) liveness of the harness itself: every call into the crate that is not a wait (the waits have their own
+// watchdogs) is counted while in flight; a monitor thread ends the run with an oracle failure if such a call
+// has not come back for DEADMAN seconds (a deadlocked `cancel`, a signalling method that blocks for ever ...).
+// ------------------------------------------------------------------------------------------
+const DEADMAN: Duration = Duration::from_secs(30);
+static CALLS_IN_FLIGHT: AtomicI64 = AtomicI64::new(0);
+static LAST_PROGRESS_MS: std::sync::atomic::AtomicU64 = std::sync::atomic::AtomicU64::new(0);
+static CURRENT_CALL: Mutex<String> = Mutex::new(String::new());
+static CURRENT_LINE: Mutex<String> = Mutex::new(String::new());
+
+fn now_ms() -> u64 {
+    static START: std::sync::OnceLock<Instant> = std::sync::OnceLock::new();
+    START.get_or_init(Instant::now).elapsed().as_millis() as u64
+}
+
+struct InCall;
+impl InCall {
+    fn enter(what: &str) -> InCall {
+        let first = CALLS_IN_FLIGHT.fetch_add(1, Ordering::SeqCst) == 0;
+        if first { LAST_PROGRESS_MS.store(now_ms(), Ordering::SeqCst); }
+        if first || what.starts_with('`') {
+            if let Ok(mut c) = CURRENT_CALL.try_lock() { c.clear(); c.push_str(what); }
+        }
+        InCall
+    }
+}
+impl Drop for InCall {
+    fn drop(&mut self) {
+        CALLS_IN_FLIGHT.fetch_sub(1, Ordering::SeqCst);
+        LAST_PROGRESS_MS.store(now_ms(), Ordering::SeqCst);
+    }
+}
+
+/// Shadows the library's `catch` for everything except the waits.
+fn catch<T>(f: impl FnOnce() -> T) -> Result<T, String> {
+    let _g = InCall::enter("a read-only call or a signalling call");
+    repe_verif_harness::catch(f)
+}
+
+fn spawn_deadman(out_dir: std::path::PathBuf) {
+    std::thread::spawn(move || loop {
+        std::thread::sleep(Duration::from_millis(500));
+        if CALLS_IN_FLIGHT.load(Ordering::SeqCst) > 0 && now_ms().saturating_sub(LAST_PROGRESS_MS.load(Ordering::SeqCst)) > DEADMAN.as_millis() as u64 {
+            let what = CURRENT_CALL.lock().map(|c| c.clone()).unwrap_or_default();
+            let line = CURRENT_LINE.lock().map(|c| c.clone()).unwrap_or_default();
+            let v = serde_json::json!({"sig": "wake.call_never_returned",
+                "detail": format!("{} into TransferControl has not returned for {} s (the methods hold the mutex only for counter updates): the run is abandoned", what, DEADMAN.as_secs()),
+                "ops": [line]});
+            use std::io::Write as _;
+            if let Ok(mut f) = std::fs::OpenOptions::new().append(true).create(true).open(out_dir.join("oracle.txt")) { let _ = writeln!(f, "{}", v); }
+            let _ = std::fs::write(out_dir.join("stats.json"), serde_json::json!({"evaluations": 0, "distinct_nontrivial": 0, "distinct": 0, "oracle_failures": 1,
+                "rule": "run abandoned: a call into the crate never returned", "distribution": {}, "samples": [], "extra": {"abandoned": true}}).to_string());
+            eprintln!("fam_wake: {} never returned; abandoning the run", what);
+            std::process::exit(0);
+        }
+    });
+}
 const FAR: Duration = Duration::from_secs(3600);
 const REPLAY_RUNS: usize = 200;
 /// every missed wake-up costs a 10 s watchdog: stop generating once the point is made
@@ -165,6 +224,7 @@ fn credit_fits(inf: u64, len: u64, window: u64) -> bool { inf == 0 || inf.checke
 enum OpRes { Unit, ResumeOk(u64), ResumeErr }
 
 fn apply(tc: &TransferControl, op: &Op) -> OpRes {
+    let _g = InCall::enter(&format!("`{}`", op.show()));
     match op {
         Op::Sent(n) => { tc.record_sent(*n); OpRes::Unit }
         Op::Ack(f, o) => { tc.record_ack(*f, *o); OpRes::Unit }
@@ -176,7 +236,7 @@ fn apply(tc: &TransferControl, op: &Op) -> OpRes {
         Op::Adv(f) => { tc.advance_to_file(*f); OpRes::Unit }
         Op::Res(f, o) => match tc.request_resume(dummy_peer((*f as u64).wrapping_add(*o) % 4), *f, *o) {
             Ok(off) => OpRes::ResumeOk(off),
-            Err(_) => OpRes::ResumeErr,
+            Err(e) => { let _ = e.reason(); OpRes::ResumeErr }
         },
         Op::Push(o, l) => { tc.push_replay(*o, *l, (o ^ l) % 3 == 0, vec![0u8; push_body_len(*o, *l)]); OpRes::Unit }
         Op::SetPeer(p) => { tc.set_peer(dummy_peer(*p)); OpRes::Unit }
@@ -237,7 +297,7 @@ impl Case {
         let setup = parse_ops(w[5].strip_prefix("setup=")?)?;
         let t = w[6].strip_prefix("thr=")?;
         let threads = if t == "-" { vec![] } else { t.split('/').map(parse_ops).collect::<Option<Vec<_>>>()? };
-        let seq = w.get(7).map(|o| *o != "order=-").unwrap_or(true);
+        let seq = w.get(7).map(|o| *o != "order=-" && !o.starts_with("order=d")).unwrap_or(true);
         Some(Case { tmo, imm, kind, window, cap, setup, threads, seq })
     }
 }
@@ -340,7 +400,7 @@ fn execute(c: &Case, rng: &mut Rng, tmo_ms: u64) -> Exec {
             let t0 = Instant::now();
             let deadline = if imm_past { t0.checked_sub(Duration::from_secs(1)).unwrap_or(t0) } else { t0 + span };
             entered.store(true, Ordering::SeqCst);
-            let r = catch(|| match kind {
+            let r = repe_verif_harness::catch(|| match kind {
                 Kind::Credit(len) => match tc.wait_for_credit(len, deadline) {
                     Ok(()) => Got::Ok,
                     Err(CreditError::Cancelled(r)) => Got::Cancelled(r),
@@ -559,7 +619,8 @@ fn world(rng: &mut Rng) -> World {
     let file = *rng.pick(&[0u32, 0, 1, 2, 7, u32::MAX]);
     let mut setup = Vec::new();
     if file != 0 { setup.push(Op::Adv(file)); }
-    let n = rng.range(1, 4);
+    // mostly 1-4 chunks in the ring; one world in eight holds 12-40 (a resume then lands deep inside the ring)
+    let n = if rng.chance(1, 8) { rng.range(12, 40) } else { rng.range(1, 4) };
     let mut chunks = Vec::new();
     let mut off = 0;
     for _ in 0..n {
@@ -779,7 +840,7 @@ fn run_trickle(kind: Kind, window: u64, setup: Vec<Op>, d_ms: u64, seed: u64) ->
             let t0 = Instant::now();
             let deadline = t0 + d;
             *started.lock().unwrap() = Some(t0);
-            let r = catch(|| match kind {
+            let r = repe_verif_harness::catch(|| match kind {
                 Kind::Credit(len) => match tc.wait_for_credit(len, deadline) {
                     Ok(()) => Got::Ok,
                     Err(CreditError::Cancelled(r)) => Got::Cancelled(r),
@@ -872,7 +933,8 @@ struct MultiCase { window: u64, kinds: Vec<Kind>, setup: Vec<Op>, ops: Vec<Op> }
 
 fn gen_multi(rng: &mut Rng) -> MultiCase {
     let w = world(rng);
-    let n = rng.range(2, 4) as usize;
+    // mostly 2-4 waiters; one case in twelve has 12-16 of them
+    let n = if rng.chance(1, 12) { rng.range(12, 16) } else { rng.range(2, 4) } as usize;
     let mut kinds = Vec::new();
     for _ in 0..n {
         if rng.chance(2, 5) { kinds.push(Kind::Reconnect); } else { kinds.push(Kind::Credit(w.len.saturating_add(rng.below(4) * w.scale))); }
@@ -905,6 +967,7 @@ fn parse_multi(line: &str) -> Option<MultiCase> {
 fn run_multi(out: &mut Out, c: &MultiCase, idx: u64) {
     let line = format!("multi {} {} kinds={} setup={} thr={}", idx, c.window, show_kinds(&c.kinds), show_ops(&c.setup), show_ops(&c.ops));
     out.begin(&line);
+    if let Ok(mut c) = CURRENT_LINE.lock() { *c = line.clone(); }
     let tc = TransferControl::new(c.window);
     for op in &c.setup { apply(&tc, op); }
     let n = c.kinds.len();
@@ -915,7 +978,7 @@ fn run_multi(out: &mut Out, c: &MultiCase, idx: u64) {
         let (tc, k, tx, tid) = (tc.clone(), k.clone(), tx.clone(), tids[i].clone());
         handles.push(std::thread::spawn(move || {
             tid.store(gettid(), Ordering::SeqCst);
-            let r = catch(|| match k {
+            let r = repe_verif_harness::catch(|| match k {
                 Kind::Credit(len) => match tc.wait_for_credit(len, Instant::now() + FAR) {
                     Ok(()) => Got::Ok,
                     Err(CreditError::Cancelled(r)) => Got::Cancelled(r),
@@ -1038,7 +1101,7 @@ fn run_watchdog_case(seed: u64, thorough: bool) -> WdResult {
         heads.push(format!("{} {} {} setup={} thr=cancel:0 order=-", k, l, window, show_ops(&setup)));
         let tx = tx.clone();
         waiters.push(std::thread::spawn(move || {
-            let r = catch(|| match kind {
+            let r = repe_verif_harness::catch(|| match kind {
                 Kind::Credit(len) => match tc.wait_for_credit(len, Instant::now() + FAR) {
                     Ok(()) => Got::Ok,
                     Err(CreditError::Cancelled(r)) => Got::Cancelled(r),
@@ -1085,6 +1148,10 @@ fn run_watchdog_case(seed: u64, thorough: bool) -> WdResult {
         }
         res.lines.push((line, format!("IDX {} {}", shown, fin)));
     }
+    // the rest of the registry's surface (none of it can reach a waiter; driven so that nothing public is left out)
+    let _ = (reg.len(), reg.is_empty(), reg.snapshot().len());
+    let _ = reg.unregister(0);
+    let _ = reg.len();
     drop(reg);
     res
 }
@@ -1133,7 +1200,7 @@ fn run_sq(c: SqCase, seed: u64) -> SqResult {
             std::thread::spawn(move || {
                 let t0 = Instant::now();
                 let deadline = t0 + d;
-                let r = catch(|| match kind {
+                let r = repe_verif_harness::catch(|| match kind {
                     Kind::Credit(len) => match tc.wait_for_credit(len, deadline) {
                         Ok(()) => Got::Ok,
                         Err(CreditError::Cancelled(r)) => Got::Cancelled(r),
@@ -1271,6 +1338,8 @@ struct Fixed {
     observers: u8,
     /// deadline of the wait when nothing is expected to enable it (None: 2-15 ms)
     idle_deadline: Option<Duration>,
+    /// silence before the first op (None: 0-3 ms): a stall longer than any plausible internal timer
+    delay_before_ops: Option<Duration>,
 }
 
 fn run_life(seed: u64, fixed: Option<Fixed>) -> SqResult {
@@ -1307,6 +1376,9 @@ fn run_life(seed: u64, fixed: Option<Fixed>) -> SqResult {
         let kind = if let Some(f) = &fixed { f.kind.clone() } else { kind };
         if let Kind::Credit(l) = &kind { if !seen_lens.contains(l) { seen_lens.push(*l); } }
         prev_kind = Some(kind.clone());
+        if let Ok(mut c) = CURRENT_LINE.try_lock() {
+            *c = format!("sq 0 {} {} setup={} thr=- order=- got=parked fin=0:0:0", match &kind { Kind::Credit(l) => format!("credit {}", l), Kind::Reconnect => "reconnect 0".to_string() }, w.window, show_ops(&hist));
+        }
         let fam = match kind { Kind::Credit(_) => "wake.credit", Kind::Reconnect => "wake.reconnect" };
         let (k, len) = match &kind { Kind::Credit(l) => ("credit", *l), Kind::Reconnect => ("reconnect", 0) };
         let at_entry = spec.acceptable(&kind);
@@ -1326,14 +1398,15 @@ fn run_life(seed: u64, fixed: Option<Fixed>) -> SqResult {
         let mut spec_end = spec.clone();
         for op in during.iter().chain(enabling.iter()) { spec_end.apply(op); }
         let will_enable = at_entry.is_empty() && !spec_end.acceptable(&kind).is_empty();
-        let d = if will_enable { Duration::from_millis(6000) } else if let Some(dd) = fixed.as_ref().and_then(|f| f.idle_deadline) { dd } else { Duration::from_millis(2 + rng.below(14)) };
+        let stall = fixed.as_ref().and_then(|f| f.delay_before_ops);
+        let d = if will_enable { Duration::from_millis(6000) + stall.unwrap_or(Duration::ZERO) } else if let Some(dd) = fixed.as_ref().and_then(|f| f.idle_deadline) { dd } else { Duration::from_millis(2 + rng.below(14)) };
         let (tx, rx) = mpsc::channel::<(Got, Instant, Instant)>();
         let waiter = {
             let (tc, kind) = (tc.clone(), kind.clone());
             std::thread::spawn(move || {
                 let t0 = Instant::now();
                 let deadline = t0 + d;
-                let r = catch(|| match kind {
+                let r = repe_verif_harness::catch(|| match kind {
                     Kind::Credit(len) => match tc.wait_for_credit(len, deadline) {
                         Ok(()) => Got::Ok,
                         Err(CreditError::Cancelled(r)) => Got::Cancelled(r),
@@ -1375,7 +1448,7 @@ fn run_life(seed: u64, fixed: Option<Fixed>) -> SqResult {
         let mut states: Vec<(u64, u64, bool)> = vec![(spec.sent, spec.acked, spec.cancelled.is_some())];
         let ops_now: Vec<Op> = during.iter().cloned().chain(enabling.iter().cloned()).collect();
         if !ops_now.is_empty() {
-            std::thread::sleep(Duration::from_micros(rng.below(3000)));
+            std::thread::sleep(stall.unwrap_or(Duration::from_micros(rng.below(3000))));
             for op in &ops_now {
                 apply(&tc, op);
                 spec.apply(op);
@@ -1395,7 +1468,11 @@ fn run_life(seed: u64, fixed: Option<Fixed>) -> SqResult {
         let fin = format!("{}:{}:{}", sent, acked, if cancelled { 1 } else { 0 });
         let got = r.as_ref().map(|x| x.0.clone()).unwrap_or(Got::Parked);
         let win_word = match fixed.as_ref().and_then(|f| f.cap) { Some(c) => format!("{}/{}", w.window, c), None => w.window.to_string() };
-        let line = format!("sq IDX {} {} {} setup={} thr={} order=- got={} fin={}", k, len, win_word, show_ops(&line_setup), thr, got.show(), fin);
+        let ord_word = match fixed.as_ref().and_then(|f| f.idle_deadline) {
+            Some(dd) if dd >= Duration::from_millis(100) => format!("d{}{}", dd.as_millis(), if stall.is_some() { "s" } else { "" }),
+            _ => "-".to_string(),
+        };
+        let line = format!("sq IDX {} {} {} setup={} thr={} order={} got={} fin={}", k, len, win_word, show_ops(&line_setup), thr, ord_word, got.show(), fin);
         let nth = format!("wait {} of {} in the life of one control ({} ms deadline)", round + 1, rounds, d.as_millis());
         // (j) every observation is a state the control really was in (offsets() is one lock region)
         for (s, a, c) in &observed {
@@ -1494,7 +1571,7 @@ fn gen_bursts(thorough: bool) -> Vec<Fixed> {
                 } else {
                     Some(match case_no % 3 { 0 => Op::Cancel(3), 1 => Op::Adv(9), _ => Op::Ack(spec.file, spec.sent) })
                 };
-                v.push(Fixed { window, cap: None, setup, kind, during, enabling, during_on_setup: n >= 256, observers: (case_no % 3) as u8, idle_deadline: None });
+                v.push(Fixed { window, cap: None, setup, kind, during, enabling, during_on_setup: n >= 256, observers: (case_no % 3) as u8, idle_deadline: None, delay_before_ops: None });
             }
         }
     }
@@ -1519,13 +1596,72 @@ fn gen_pairs() -> Vec<Fixed> {
                             1 => (Some(Duration::from_millis(4)), None),
                             _ => (Some(Duration::from_millis(3)), Some(match (&kind, case_no % 2) { (_, 0) => Op::Cancel(9), (Kind::Reconnect, _) => Op::Res(0, 0), _ => Op::Ack(0, 5) })),
                         };
-                        v.push(Fixed { window, cap: Some(cap), setup, kind, during: vec![], enabling, during_on_setup: false, observers: 0, idle_deadline });
+                        v.push(Fixed { window, cap: Some(cap), setup, kind, during: vec![], enabling, during_on_setup: false, observers: 0, idle_deadline, delay_before_ops: None });
                     }
                 }
             }
         }
     }
     v
+}
+
+
+// ------------------------------------------------------------------------------------------
+// (s) silences longer than any plausible internal timer: waits whose deadline is 0.3 / 0.6 / 1.1 s (thorough:
+// 2.5 / 5.5 / 11 s) away and nothing happens (Timeout, not before the deadline), or the enabling event comes
+// only after such a silence (the value, promptly). They run concurrently.
+// ------------------------------------------------------------------------------------------
+fn gen_stalls(thorough: bool) -> Vec<Fixed> {
+    let mut v = Vec::new();
+    let mut ms: Vec<u64> = vec![300, 600, 1100];
+    if thorough { ms.extend([2500, 5500, 11000]); }
+    let mut n = 0u64;
+    for &m in &ms {
+        for reconnect in [false, true] {
+            for late_event in [false, true] {
+                n += 1;
+                let kind = if reconnect { Kind::Reconnect } else { Kind::Credit(1 + n % 3) };
+                let setup = vec![Op::Push(0, 50), Op::Sent(50)];
+                let enabling = if !late_event { None } else if reconnect { Some(if n % 2 == 0 { Op::Cancel(4) } else { Op::Res(0, 50) }) } else { Some(if n % 2 == 0 { Op::Ack(0, 50) } else { Op::Adv(3) }) };
+                v.push(Fixed { window: 1 + n % 5, cap: None, setup, kind, during: vec![], enabling, during_on_setup: false, observers: 0,
+                    idle_deadline: Some(Duration::from_millis(m)), delay_before_ops: if late_event { Some(Duration::from_millis(m)) } else { None } });
+            }
+        }
+    }
+    v
+}
+
+// ------------------------------------------------------------------------------------------
+// (n) which public entry points of src/stream.rs does this harness drive?
+// ------------------------------------------------------------------------------------------
+const DRIVEN: &[&str] = &["new", "with_replay_capacity", "set_peer", "peer", "push_replay", "replay_chunks_from", "request_resume",
+    "wait_for_reconnect", "wait_for_credit", "record_sent", "record_ack", "cancel", "is_cancelled", "cancel_reason", "advance_to_file",
+    "timestamps", "offsets", "register", "unregister", "get", "snapshot", "len", "is_empty", "spawn_watchdog", "reason"];
+/// (name, why not)
+const NOT_DRIVEN_BECAUSE: &[(&str, &str)] = &[];
+
+fn entry_point_audit(out: &mut Out) {
+    let repo = std::env::var("VERIF_REPO").unwrap_or_else(|_| "/repo".into());
+    let text = std::fs::read_to_string(std::path::Path::new(&repo).join("src").join("stream.rs")).unwrap_or_default();
+    let text = text.split("#[cfg(test)]").next().unwrap_or("").to_string();
+    let mut found = Vec::new();
+    for line in text.lines() {
+        let t = line.trim_start();
+        for pre in ["pub async fn ", "pub fn ", "pub(crate) fn "] {
+            if let Some(rest) = t.strip_prefix(pre) {
+                let name: String = rest.chars().take_while(|c| c.is_alphanumeric() || *c == '_').collect();
+                if !name.is_empty() && !found.contains(&name) { found.push(name); }
+            }
+        }
+    }
+    let missing: Vec<String> = found.iter().filter(|n| !DRIVEN.contains(&n.as_str()) && !NOT_DRIVEN_BECAUSE.iter().any(|(x, _)| x == n)).cloned().collect();
+    for m in &missing {
+        out.count(&format!("NOT_DRIVEN.{}", m));
+        eprintln!("fam_wake: public entry point `{}` of src/stream.rs is not driven by this harness", m);
+    }
+    out.extra.insert("entry_points_found".into(), serde_json::json!(found.len()));
+    out.extra.insert("not_driven".into(), serde_json::json!(missing));
+    out.extra.insert("not_driven_because".into(), serde_json::json!(NOT_DRIVEN_BECAUSE.iter().map(|(a, b)| format!("{}: {}", a, b)).collect::<Vec<_>>()));
 }
 
 // ------------------------------------------------------------------------------------------
@@ -1598,7 +1734,7 @@ fn race_batch(out: &mut Out, rounds: Vec<RaceRound>, idx: &mut u64, until: Insta
                 }
                 spin(rounds[i].wdelay);
                 let tc = &ctls[i];
-                let r = catch(|| match rounds[i].kind {
+                let r = repe_verif_harness::catch(|| match rounds[i].kind {
                     Kind::Credit(len) => match tc.wait_for_credit(len, Instant::now() + FAR) {
                         Ok(()) => Got::Ok,
                         Err(CreditError::Cancelled(r)) => Got::Cancelled(r),
@@ -1717,6 +1853,7 @@ fn race_phase(out: &mut Out, rng: &mut Rng, idx: &mut u64, total: u64, budget: D
 fn run_case(out: &mut Out, c: &Case, idx: u64, rng: &mut Rng) {
     let head = c.head(idx);
     out.begin(&head);
+    if let Ok(mut c) = CURRENT_LINE.lock() { *c = head.clone(); }
     let tmo_ms = 1 + rng.below(31);
     let e = execute(c, rng, tmo_ms);
     let order = match &e.order { Some(o) if !o.is_empty() => o.iter().map(|t| t.to_string()).collect::<Vec<_>>().join("."), Some(_) => "-".into(), None => "-".into() };
@@ -1742,7 +1879,9 @@ fn main() {
     let mut out = Out::new(&args.out);
     out.flush_each = true;
     let mut rng = Rng::new(args.seed);
-    out.rule = "one real thread in wait_for_credit/wait_for_reconnect (deadline 1 h) on a TransferControl whose window is full; the harness waits until /proc shows the waiter asleep (70%) or races its entry (30%); then 1-3 ops (ack: exact/insufficient/capped/stale/foreign, cancel, advance, resume: covered/uncovered/foreign, sent) from 1-3 threads with random yields/spins, signallers serialised by a harness lock (linearisation recorded) or free; values scaled by 1..2^40; 3/8 of the worlds sit on a boundary of the credit rule (window 0, chunk_len 0, chunk_len = window, oversized chunk) and enabling acks land in-flight exactly on the grant boundary or on 0. Oracles: condition true in the real final state => waiter returns within 10 s; never Timeout; returned value matches a state that occurred. `tmo` cases: 1-31 ms deadline, 0-3 ops that cannot satisfy the condition (many of them notify), spread over the wait, must return Timeout, not before the deadline. `imm` cases: deadline already passed at entry and condition already true: the matching value must be returned, not Timeout. `race` rounds: waiter and signaller released together from a spin barrier, start offset swept (signaller 0-200 spins later / waiter 0-64 spins later / a non-enabling wake-up then the enabling one 0-4000 spins apart), last op makes the condition true, 5 s watchdog. `multi` cases: 2-4 waiters of mixed kinds (credit with different chunk lengths, reconnect) parked on one control, 1-3 ops: every waiter whose condition holds in the final state must return, a staged resume must be taken by exactly one reconnect waiter, one cancel releases all the rest. `wd`: the registry's idle watchdog (200 ms idle timeout) cancels two idle transfers whose producers are parked: both must return Cancelled(transfer idle). `sq` cases: 2-3 waits one after the other on the SAME control: 1-2 short ones (1-12 ms) that must time out, then one with a fresh 40-120 ms deadline during which, in 3/5 of the cases, an enabling op arrives: never Timeout before that wait's own deadline, never Timeout when the op completed before it. `life` cases: one control through 4-6 waits of both kinds (chunk_len 0/1/window/u64::MAX...), ops between and during the waits, later waits after Timeout / Ok / ResumeReady (resume consumed) / Cancelled results; expectations come from a harness-side reading of the call history (not from the control's getters). `burst` cases: runs of 1,2,7,8,9,16,17,64,65,256 (thorough: 1000) identical events while the waiter waits (advancing/stale/foreign acks, sends, refused and accepted resumes, readers, set_peer, cancels, send+ack pairs, advances) or N timeouts in a row before the wait, then the enabling event; `pairs`: window x replay capacity x chunk_len x state x deadline at their extremes (324 combinations); in a third of the scripted/life waits 1-3 observer threads hammer the read-only methods and every observed (sent, acked) must be a state of the call history. `trk` cases: 300-400 ms deadline, a non-enabling ack every ~deadline/4, must return Timeout no later than deadline + 3 s. Non-trivial = the final state obliges the waiter to return, or a tmo case; distinct by op line (incl. observed order/outcome)".into();
+    spawn_deadman(args.out.clone());
+    entry_point_audit(&mut out);
+    out.rule = "one real thread in wait_for_credit/wait_for_reconnect (deadline 1 h) on a TransferControl whose window is full; the harness waits until /proc shows the waiter asleep (70%) or races its entry (30%); then 1-3 ops (ack: exact/insufficient/capped/stale/foreign, cancel, advance, resume: covered/uncovered/foreign, sent) from 1-3 threads with random yields/spins, signallers serialised by a harness lock (linearisation recorded) or free; values scaled by 1..2^40; 3/8 of the worlds sit on a boundary of the credit rule (window 0, chunk_len 0, chunk_len = window, oversized chunk) and enabling acks land in-flight exactly on the grant boundary or on 0. Oracles: condition true in the real final state => waiter returns within 10 s; never Timeout; returned value matches a state that occurred. `tmo` cases: 1-31 ms deadline, 0-3 ops that cannot satisfy the condition (many of them notify), spread over the wait, must return Timeout, not before the deadline. `imm` cases: deadline already passed at entry and condition already true: the matching value must be returned, not Timeout. `race` rounds: waiter and signaller released together from a spin barrier, start offset swept (signaller 0-200 spins later / waiter 0-64 spins later / a non-enabling wake-up then the enabling one 0-4000 spins apart), last op makes the condition true, 5 s watchdog. `multi` cases: 2-4 waiters of mixed kinds (credit with different chunk lengths, reconnect) parked on one control, 1-3 ops: every waiter whose condition holds in the final state must return, a staged resume must be taken by exactly one reconnect waiter, one cancel releases all the rest. `wd`: the registry's idle watchdog (200 ms idle timeout) cancels two idle transfers whose producers are parked: both must return Cancelled(transfer idle). `sq` cases: 2-3 waits one after the other on the SAME control: 1-2 short ones (1-12 ms) that must time out, then one with a fresh 40-120 ms deadline during which, in 3/5 of the cases, an enabling op arrives: never Timeout before that wait's own deadline, never Timeout when the op completed before it. `life` cases: one control through 4-6 waits of both kinds (chunk_len 0/1/window/u64::MAX...), ops between and during the waits, later waits after Timeout / Ok / ResumeReady (resume consumed) / Cancelled results; expectations come from a harness-side reading of the call history (not from the control's getters). `burst` cases: runs of 1,2,7,8,9,16,17,64,65,256 (thorough: 1000) identical events while the waiter waits (advancing/stale/foreign acks, sends, refused and accepted resumes, readers, set_peer, cancels, send+ack pairs, advances) or N timeouts in a row before the wait, then the enabling event; `pairs`: window x replay capacity x chunk_len x state x deadline at their extremes (324 combinations); in a third of the scripted/life waits 1-3 observer threads hammer the read-only methods and every observed (sent, acked) must be a state of the call history. `stall` cases: deadlines 0.3/0.6/1.1 s (thorough 2.5/5.5/11 s) with nothing happening, or the enabling event only after that silence; one world in eight has 12-40 chunks in the ring, one multi case in twelve 12-16 waiters. `trk` cases: 300-400 ms deadline, a non-enabling ack every ~deadline/4, must return Timeout no later than deadline + 3 s. Non-trivial = the final state obliges the waiter to return, or a tmo case; distinct by op line (incl. observed order/outcome)".into();
     let mut idx = 0u64;
     if let Some(lines) = args.replay_ops() {
         for l in lines {
@@ -1770,8 +1909,13 @@ fn main() {
                         // the recorded wait on a control with the recorded history (earlier waits included, `w:*`) ...
                         let all: Vec<Op> = c.threads.iter().flatten().cloned().collect();
                         let during: Vec<Op> = if all.len() > 1 { all[..all.len() - 1].to_vec() } else { vec![] };
+                        // `order=d<ms>[s]`: the scripted deadline of a stall case (s: the event comes only after that silence)
+                        let dword = words(&l).get(7).and_then(|o| o.strip_prefix("order=d")).map(|x| x.to_string());
+                        let idle = dword.as_ref().and_then(|x| x.trim_end_matches('s').parse::<u64>().ok()).map(Duration::from_millis);
+                        let delay = if dword.as_ref().map(|x| x.ends_with('s')).unwrap_or(false) { idle } else { None };
+                        if idle.is_some() && i >= 2 { break; }
                         let r = run_life(rng.next(), Some(Fixed { window: c.window, cap: c.cap, setup: c.setup.clone(), kind: c.kind.clone(), during,
-                            enabling: all.last().cloned(), during_on_setup: false, observers: (i % 3) as u8, idle_deadline: None }));
+                            enabling: all.last().cloned(), during_on_setup: false, observers: (i % 3) as u8, idle_deadline: idle, delay_before_ops: delay }));
                         log_sq(&mut out, r, &mut idx);
                         // ... and, when the history says the wait starts with its condition false, also preceded by waits that time out
                         let mut spec = Spec::new(c.window);
@@ -1795,25 +1939,28 @@ fn main() {
             }
         }
     } else {
-        let (n_wake, n_tmo) = if args.thorough() { (100000, 2500) } else { (3000, 150) };
+        // `lite` (the release-profile run of the thorough tier): quick-sized workloads
+        let big = args.thorough() && !args.has("lite");
+        let (n_wake, n_tmo) = if big { (100000, 2500) } else { (3000, 150) };
         // trickle cases sleep most of the time: they run beside everything else
-        let n_trk = if args.thorough() { 24 } else { 8 };
+        let n_trk = if big { 24 } else { 8 };
         let trk: Vec<_> = (0..n_trk).map(|_| {
             let (kind, window, setup, d_ms) = trk_case(&mut rng);
             let seed = rng.next();
             std::thread::spawn(move || run_trickle(kind, window, setup, d_ms, seed))
         }).collect();
-        let n_sq = if args.thorough() { 160 } else { 32 };
+        let n_sq = if big { 160 } else { 32 };
         let sq: Vec<_> = (0..n_sq).map(|_| {
             let c = gen_sq(&mut rng);
             let seed = rng.next();
             std::thread::spawn(move || run_sq(c, seed))
         }).collect();
-        let n_life = if args.thorough() { 400 } else { 64 };
+        let n_life = if big { 400 } else { 64 };
         let life: Vec<_> = (0..n_life).map(|_| { let seed = rng.next(); std::thread::spawn(move || run_life(seed, None)) }).collect();
-        let wdog = { let seed = rng.next(); let th = args.thorough(); std::thread::spawn(move || run_watchdog_case(seed, th)) };
+        let stalls: Vec<_> = gen_stalls(big).into_iter().map(|f| { let seed = rng.next(); std::thread::spawn(move || run_life(seed, Some(f))) }).collect();
+        let wdog = { let seed = rng.next(); let th = big; std::thread::spawn(move || run_watchdog_case(seed, th)) };
         // entry races
-        let (n_race, race_budget) = if args.thorough() { (400000, Duration::from_secs(150)) } else { (30000, Duration::from_secs(8)) };
+        let (n_race, race_budget) = if big { (400000, Duration::from_secs(120)) } else { (30000, Duration::from_secs(8)) };
         let t_race = Instant::now();
         race_phase(&mut out, &mut rng, &mut idx, n_race, race_budget, None);
         out.extra.insert("race_phase_ms".into(), serde_json::json!(t_race.elapsed().as_millis() as u64));
@@ -1821,7 +1968,7 @@ fn main() {
         // tmo cases are spread among the wake cases
         let every = n_wake / n_tmo;
         // on a crowded machine the quick tier stops generating after a while (coverage shrinks, the verdict does not change)
-        let wake_until = Instant::now() + if args.thorough() { Duration::from_secs(600) } else { Duration::from_secs(16) };
+        let wake_until = Instant::now() + if big { Duration::from_secs(200) } else { Duration::from_secs(16) };
         for i in 0..n_wake {
             if i % 64 == 0 && Instant::now() > wake_until {
                 out.count("wake.time_budget_reached");
@@ -1844,9 +1991,9 @@ fn main() {
             }
         }
         // (g) runs of identical events, (k) knob pairs: scripted single waits
-        let scripted_until = Instant::now() + if args.thorough() { Duration::from_secs(240) } else { Duration::from_secs(9) };
+        let scripted_until = Instant::now() + if big { Duration::from_secs(100) } else { Duration::from_secs(9) };
         let mut scripted: Vec<(&str, Fixed)> = gen_pairs().into_iter().map(|f| ("pairs", f)).collect();
-        scripted.extend(gen_bursts(args.thorough()).into_iter().map(|f| ("burst", f)));
+        scripted.extend(gen_bursts(big).into_iter().map(|f| ("burst", f)));
         rng.shuffle(&mut scripted);
         for (what, f) in scripted {
             if out.oracle_failures >= MAX_FAILURES { break; }
@@ -1856,8 +2003,8 @@ fn main() {
             let r = run_life(rng.next(), Some(f));
             log_sq(&mut out, r, &mut idx);
         }
-        let n_multi = if args.thorough() { 6000 } else { 400 };
-        let multi_until = Instant::now() + if args.thorough() { Duration::from_secs(300) } else { Duration::from_secs(8) };
+        let n_multi = if big { 6000 } else { 400 };
+        let multi_until = Instant::now() + if big { Duration::from_secs(100) } else { Duration::from_secs(8) };
         for _ in 0..n_multi {
             if out.oracle_failures >= MAX_FAILURES || Instant::now() > multi_until { break; }
             idx += 1;
@@ -1869,6 +2016,9 @@ fn main() {
         }
         for h in sq {
             if let Ok(r) = h.join() { log_sq(&mut out, r, &mut idx); }
+        }
+        for h in stalls {
+            if let Ok(r) = h.join() { out.count("stall.cases"); log_sq(&mut out, r, &mut idx); }
         }
         for h in life {
             if let Ok(r) = h.join() { out.count("life.controls"); log_sq(&mut out, r, &mut idx); }
